@@ -1113,17 +1113,17 @@ def search(ck, rng):
                                replay_py=f'from chython import smiles\nm = smiles({raw!r}); m.standardize(); print(m, smiles({want!r}))')
     # (2) all operations on valence-valid corpus / decorated / hand-made molecules
     pool = []
-    for s in corpus.sample(lip, 28 if quick else 250, ck.seed, 'c14-search'):
+    for s in corpus.sample(lip, 20 if quick else 250, ck.seed, 'c14-search'):
         pool.append(('corpus', s, None))
-    for k, s in enumerate(corpus.sample(lip, 28 if quick else 250, ck.seed, 'c14-search-dec')):
+    for k, s in enumerate(corpus.sample(lip, 20 if quick else 250, ck.seed, 'c14-search-dec')):
         pool.append(('decorated', s, k))
     for tag, s in mol_inputs(ck, rng):
         pool.append((tag, s, None))
     for s in RES_SMILES + H_SMILES[:20] + SALTS:
         pool.append(('hand', s, None))
-    for _, want in test_groups_data():
+    for _, want in test_groups_data()[::2 if quick else 1]:
         pool.append(('documented result', want, None))      # the documented canonical spellings must be fixed points
-    for s in salt_family():
+    for s in salt_family()[::2 if quick else 1] + ['C[NH3+].C[NH3+].[Cl-]', '[NH3+]CC[NH3+].CC([O-])=O']:
         pool.append(('salt', s, None))
     for s in GEMINAL:
         pool.append(('geminal', s, None))
